@@ -12,7 +12,16 @@
   predicted 0.
 
   ops:  o s=<stream> o=<outcome> dur=<ns> lo=<ns> hi=<ns>   (before `start` only)
-        start | write id=a|b|m v=<n> | advance d=<ns> | watcherr | cancel | converge v=<n> | end
+        om s=<stream> pat=<e|p|w…> lo=<ns,…> hi=<ns,…>       (before `start` only: a marathon)
+        start | write id=a|b|m v=<n> | advance d=<ns> | watcherr | cancel | cancelerr mode=mid|race |
+        converge v=<n> | end
+
+  `cancelerr`: the context is cancelled while the batch that carries the watch failure is being
+  processed. mode=mid: Run observes the cancellation first (machine schedule `cancel, watchErr`),
+  mode=race: either order. What is printed is what the runtime machine of `Cosi.Model.Restart`
+  does under the shutdown schedule: `run=returned` iff `Sys.returned`, the return value from
+  `Sys.retval` (`*` for mode=race when the two orders differ). In spec mode: `run=returned`
+  always ("on cancellation Run returns"), `ret=nil` when the cancellation certainly came first.
 -/
 import Cosi.Base
 import Cosi.Model.Restart
@@ -76,6 +85,7 @@ structure St where
   rtStopped : Bool := false      -- the runtime has stopped (watch error or cancellation)
   allStopped : Bool := false     -- cancelled: tasks too
   ret : String := "notstarted"
+  hung : Bool := false           -- Run never returns (a goroutine is stuck): `leak=1` at the end
   dead : Bool := false
   spec : Bool := false
 deriving Repr, Inhabited
@@ -158,13 +168,12 @@ def validOutcomes : SK → List String
 
 /-- a script line: the window written on it must be the one the model assigns to that
     position of the script -/
-def scriptLine (s : Stream) (a : List (String × String)) : Stream × String :=
-  let o := arg a "o"
-  let dur := if s.kind == .h || s.kind == .t then argNat a "dur" else 0
-  let lo := argNat a "lo"
-  let hi := argNat a "hi"
+def scriptEntry (s : Stream) (o : String) (dur0 lo hi : Nat) : Stream × String :=
+  let dur := if s.kind == .h || s.kind == .t then dur0 else 0
   if !(validOutcomes s.kind).contains o then (s, "bad-outcome")
   else if s.sdead then (s, "script-unreachable")
+  else if s.lost then
+    ({ s with script := s.script ++ [⟨o, dur, lo, hi⟩], mayStop := s.mayStop || o == "finish" || o == "canceled" }, "*")
   else if failing o then
     match s.sm with
     | .s n =>
@@ -178,6 +187,17 @@ def scriptLine (s : Stream) (a : List (String × String)) : Stream × String :=
     | sm =>
     let sm0 := match sm with | .r l => Mach.r (rstep l .takeEvent) | m => m
     let (sm', w) := machFail s.kind sm0 (o == "panic") dur lo hi
+    -- the regenerated facts do not say how this loop backs off (constructor / MaxElapsedTime not the
+    -- recognised ones: the model's window is (0,0), a queue item is simply released): the model has
+    -- no prediction for this stream. Its tokens are `*` from here on; the obligation that broke is
+    -- reported by the theorems, a failing input by the spec-mode comparison (which knows no facts).
+    let unknown : Bool := match w, sm with
+      | some (0, 0), _ => true
+      | none, .q _ => !(o == "panic" && !Gen.Restart.qRecovers)
+      | _, _ => false
+    if unknown then
+      ({ s with wild := true, lost := true, script := s.script ++ [⟨o, dur, lo, hi⟩] }, "*")
+    else
     match w with
     | some (wlo, whi) =>
       if wlo == lo && whi == hi then
@@ -190,6 +210,30 @@ def scriptLine (s : Stream) (a : List (String × String)) : Stream × String :=
     let sm' := if o == "okn" && s.kind == .r then s.sm else machOk s.kind s.sm true
     ({ s with sm := sm', sdead := stops, mayStop := s.mayStop || o == "finish" || o == "canceled",
               script := s.script ++ [⟨o, dur, 0, 0⟩] }, "script")
+
+def scriptLine (s : Stream) (a : List (String × String)) : Stream × String :=
+  scriptEntry s (arg a "o") (argNat a "dur") (argNat a "lo") (argNat a "hi")
+
+def patOutcome : Char → String
+  | 'e' => "error"
+  | 'p' => "panic"
+  | 'w' => "errw"
+  | _ => "?"
+
+/-- a marathon line `om s=<stream> pat=<e|p|w…> lo=<list> hi=<list>`: as many script entries as
+    the pattern has letters (error / panic / errw, run time 0), each with its window, taken all
+    or nothing: the verdict of the first entry that is not accepted, and then no entry at all -/
+def marathonLine (s : Stream) (a : List (String × String)) : Stream × String :=
+  let pat := (arg a "pat").toList
+  let los := (argList a "lo").map fun x => x.toNat?.getD 0
+  let his := (argList a "hi").map fun x => x.toNat?.getD 0
+  if pat.isEmpty || los.length != pat.length || his.length != pat.length then (s, "bad-marathon") else
+  let step (acc : Stream × String) (x : Char × Nat × Nat) : Stream × String :=
+    if acc.2 != "script" && acc.2 != "*" then acc else
+    let (s', v) := scriptEntry acc.1 (patOutcome x.1) 0 x.2.1 x.2.2
+    if v == "script" then (s', acc.2) else (s', v)
+  let r := (pat.zip (los.zip his)).foldl step (s, "script")
+  if r.2 == "script" || r.2 == "*" then r else (s, r.2)
 
 /-! ### invocations -/
 
@@ -428,6 +472,13 @@ def stepLine (st : St) (op : String) (a : List (String × String)) : St × Strin
       if st.started then (st, "script-late") else
       let (s', out) := scriptLine s a
       (setS st s', out)
+  | "om" =>
+    match getS st (arg a "s") with
+    | none => (st, "no-stream")
+    | some s =>
+      if st.started then (st, "script-late") else
+      let (s', out) := marathonLine s a
+      (setS st s', out)
   | "start" =>
     if st.started then (st, "already") else
     if st.allStopped then (st, "stopped") else
@@ -458,15 +509,43 @@ def stepLine (st : St) (op : String) (a : List (String × String)) : St × Strin
       (st, s!"watcherr ret={st.ret} {t}")
   | "cancel" =>
     let st := stopRuntime st true
-    let st := { st with ret := if !st.started then "notstarted" else if st.ret == "running" then "nil" else st.ret }
+    let st := { st with ret := if !st.started then "notstarted" else if st.ret == "running" && !st.hung then "nil" else st.ret }
     let (st, t) := tokens st
     (st, s!"cancel ret={st.ret} {t}")
+  | "cancelerr" =>
+    if !st.started || st.rtStopped then
+      -- nothing left to race with: a plain cancellation
+      let st := stopRuntime st true
+      let st := { st with ret := if !st.started then "notstarted" else if st.ret == "running" && !st.hung then "nil" else st.ret }
+      let (st, t) := tokens st
+      (st, s!"cancelerr run={if !st.started then "notstarted" else if st.hung then "hung" else "returned"} ret={st.ret} {t}")
+    else
+      let idf : Nat → Nat → Nat := fun _ v => v
+      -- Run observes the cancellation, then processEvents meets the Errored event; and the other order
+      let a1 := Cosi.Restart.run idf (Cosi.Restart.init 0 0) ([.cancel, .watchErr 0] ++ shutdownEvs 0)
+      let a2 := Cosi.Restart.run idf (Cosi.Restart.init 0 0) ([.watchErr 0, .cancel] ++ shutdownEvs 0)
+      let retStr (s : Sys) : String :=
+        match s.retval with
+        | some none => "nil"
+        | some (some _) => "wrapped"
+        | none => "running"
+      let race := arg a "mode" == "race"
+      let returned := st.spec || (a1.returned && (!race || a2.returned))
+      let ret :=
+        if st.spec then (if race then "*" else "nil")
+        else if !returned then (if race then "*" else "running")
+        else if race && retStr a1 != retStr a2 then "*" else retStr a1
+      let st := stopRuntime st true
+      let st := { st with ret := ret, hung := !returned }
+      let (st, t) := tokens st
+      -- with mode=race a hang depends on the order the scheduler picked: not predicted
+      (st, s!"cancelerr run={if returned then "returned" else if race then "*" else "hung"} ret={st.ret} {t}")
   | "converge" => doConverge st (argNat a "v")
   | "end" =>
     let st := stopRuntime st true
-    let st := { st with ret := if !st.started then "notstarted" else if st.ret == "running" then "nil" else st.ret, dead := true }
+    let st := { st with ret := if !st.started then "notstarted" else if st.ret == "running" && !st.hung then "nil" else st.ret, dead := true }
     let cons := st.streams.map fun s => s.name ++ "=" ++ (if s.lost then "*" else toString s.consumed)
-    (st, s!"end ret={st.ret} {" ".intercalate cons} after=0 invafter=0 shut=true watches=closed leak=0")
+    (st, s!"end ret={st.ret} {" ".intercalate cons} after=0 invafter=0 shut=true watches=closed leak={if st.hung then (if st.ret == "*" then "*" else "1") else "0"}")
   | _ => (st, "bad-op")
 
 end Cosi.Driver.Restart
